@@ -101,6 +101,14 @@ class Intervals:
         if c[0] == "and":
             for x in c[1]:
                 self._index(x)
+        elif (c[0] == "cmp" and c[1] == "in" or c[0] == "un" and c[1] == "not" and c[2][0] == "cmp" and c[2][1] == "notin") \
+                and (c if c[0] == "cmp" else c[2])[3][0] in ("tup", "list", "set"):
+            # x in (k1, k2, ...) with integer constants: x lies between the smallest and the largest of them
+            m = c if c[0] == "cmp" else c[2]
+            ks = m[3][1]
+            if ks and all(k[0] == "c" and isinstance(k[1], int) and not isinstance(k[1], bool) for k in ks):
+                self._cmp_index.setdefault(m[2], []).append((">=", C(min(k[1] for k in ks))))
+                self._cmp_index.setdefault(m[2], []).append(("<=", C(max(k[1] for k in ks))))
         elif c[0] == "un" and c[1] == "not" and c[2][0] not in ("cmp", "and", "or", "un", "c"):
             self._cmp_index.setdefault(c[2], []).append(("==", C(0)))  # `not x` for a number: x == 0
         elif c[0] not in ("cmp", "and", "or", "un", "c", "loop0"):
